@@ -338,7 +338,26 @@ func genScenario(t *sim.Tape, r *sim.Run, sweep bool) *scenario {
 				a.LoadImm64(reg, v)
 			}
 		}
-		a.Ecalli(uint32(op))
+		if op == hUnknown {
+			// identifiers that are in no table: small, beyond the name table, beyond one octet, beyond 16 bits, and
+			// one-octet immediates of 0x80 and more (sign-extended to identifiers near 2^64)
+			switch v := t.Choose(8, "unknown_id"); v {
+			case 0, 1:
+				a.Ecalli(uint32(hUnknown))
+			case 2:
+				a.Ecalli(101)
+			case 3:
+				a.Ecalli(200)
+			case 4:
+				a.Ecalli(256 + uint32(t.Choose(27, "unknown_id_low_octet"))) // low octet = a defined identifier
+			case 5:
+				a.Ecalli(70000)
+			default:
+				a.EcalliRaw([]byte{0x80, 0xC8, 0xFF}[v-6])
+			}
+		} else {
+			a.Ecalli(uint32(op))
+		}
 		sc.steps = append(sc.steps, step{op: op, regs: regs, nInstr: len(regs) + 1, visible: op != hUnknown, note: note})
 	}
 	svc := func() uint64 {
